@@ -43,7 +43,7 @@ def budget(tier):
 
 
 def strategy(tier):
-    op = st.tuples(st.sampled_from(["new", "new", "new", "clear"]), st.integers(0, 7), st.integers(0, len(ARGSETS) - 1))
+    op = st.tuples(st.sampled_from(["new", "new", "new", "clear"]), st.integers(0, 9), st.integers(0, len(ARGSETS) - 1))
     return st.builds(lambda ops: {"ops": [list(o) for o in ops]}, st.lists(op, max_size=60))
 
 
@@ -122,8 +122,16 @@ def check_case(case):
             if k.get("k", 0) == 2:
                 S.clear_true_singleton()
 
-    CL = [P, Q, R, T, N, Y]
-    names = "PQRTNY"
+    class Z(metaclass=S.TrueSingleton):
+        """A closed signature: while an instance lives, ANY arguments must still return it."""
+
+        def __init__(self, path="p"):
+            ninit[0] += 1
+            self.serial = ninit[0]
+            self.args = ((path,) if path != "p" else (), {})
+
+    CL = [P, Q, R, T, N, Y, Z]
+    names = "PQRTNYZ"
     model = {}          # class -> (serial, args)
     cleared_since = {}
     nt_a = nt_b = False
@@ -132,13 +140,21 @@ def check_case(case):
         for step, (op, ci, ai) in enumerate(case["ops"]):
             where = f"step {step} {op} {ci} {ai}"
             if op == "new":
-                c = CL[ci % 6]
+                c = CL[ci % 7]
                 a, k = ARGSETS[ai]
                 if c is T:
                     k = {kk: vv for kk, vv in k.items() if kk == "k"}
                 n0 = ninit[0]
                 nested_new = (c is N and c not in model and R not in model)
                 refused = c is Y and c not in model and a and a[0] == 1 and not k
+                if c is Z and c not in model and (len(a) > 1 or k):
+                    # the arguments do not fit Z's signature: TypeError is what Python does, nothing registered
+                    try:
+                        c(*a, **k)
+                    except TypeError:
+                        classes.add("signature-mismatch-on-first-construction")
+                        continue
+                    raise Violation("construct-returned-despite-signature-mismatch", where)
                 clears_all = c is Y and c not in model and not refused and k.get("k", 0) == 2
                 try:
                     o = c(*a, **k)
@@ -169,13 +185,15 @@ def check_case(case):
                     classes.add("nested-construction-hit")
                 if c in model:
                     require(getattr(o, "serial", None) == model[c][0] and type(o) is c, "second-instance-created",
-                            f"{where}: {names[ci % 6]} already has a live instance (serial {model[c][0]}), got serial {getattr(o, 'serial', None)} of class {type(o).__name__}")
+                            f"{where}: {names[ci % 7]} already has a live instance (serial {model[c][0]}), got serial {getattr(o, 'serial', None)} of class {type(o).__name__}")
                     require(ninit[0] == n0, "init-ran-again", where)
                     require(o.args == model[c][1], "stored-args-changed", f"{where}: args now {o.args}, first call's were {model[c][1]}")
                 else:
                     require(type(o) is c, "wrong-class-returned", f"{where}: got {type(o).__name__}")
                     require(ninit[0] == n0 + 1 and o.serial == (ninit[0] if not nested_new else ninit[0] - 1), "init-count", f"{where}: __init__ ran {ninit[0] - n0} times / an old instance (serial {getattr(o, 'serial', None)}) was returned")
                     exp_args = (tuple(a), dict(k)) if c is not T else (tuple(a), {"k": k["k"]} if k.get("k", 0) != 0 else {})
+                    if c is Z:
+                        exp_args = ((a[0],) if a and a[0] != "p" else (), {})
                     require(o.args == exp_args, "init-args", f"{where}: {o.args} vs {exp_args}")
                     model[c] = (o.serial, o.args)
                     if cleared_since.get(c):
@@ -195,7 +213,7 @@ def check_case(case):
                         model = {}
                         classes.add("clear-all")
                     else:
-                        c = CL[ci % 6]
+                        c = CL[ci % 7]
                         if c not in model:
                             classes.add("clear-class-without-instance")
                         else:
